@@ -43,12 +43,14 @@ const (
 	QHugeID
 	QUnaryBadTimeout
 	QTrailerNoStatus
+	QUnaryReset       // reset (what goat's client sends to cancel a stream) naming a unary method
+	QUnaryTrailerOnly // status + trailer, no body, naming a unary method
 	numQShapes
 )
 
 var qShapeNames = []string{"no-header", "empty-method", "no-slash", "unknown-service", "unknown-method", "wrong-destination", "unary",
 	"unary-bad-md", "unary-nil-body", "open", "open-bad-md", "open-with-body", "body", "trailer-ok", "trailer-err", "reset", "reset-other",
-	"body+trailer", "status-only", "unary+trailer", "empty", "open-sstream", "open-cstream", "huge-id", "unary-bad-timeout", "trailer-no-status"}
+	"body+trailer", "status-only", "unary+trailer", "empty", "open-sstream", "open-cstream", "huge-id", "unary-bad-timeout", "trailer-no-status", "unary-reset", "unary-trailer-only"}
 
 type RawReq struct {
 	Shape int `json:"shape"`
@@ -130,6 +132,10 @@ func buildReq(q RawReq, n int) *Rpc {
 	case QHugeID:
 		r.Id = ^uint64(0) - uint64(q.ID)
 		r.Header, r.Body = hdr(methodNames[KUnary]), bytesBody(payload)
+	case QUnaryReset:
+		r.Header, r.Reset_, r.Trailer = hdr(methodNames[KUnary]), &goatorepo.Reset{Type: "RST_STREAM"}, &goatorepo.Trailer{}
+	case QUnaryTrailerOnly:
+		r.Header, r.Status, r.Trailer = hdr(methodNames[KUnary]), &goatorepo.ResponseStatus{}, &goatorepo.Trailer{}
 	case QUnaryBadTimeout:
 		r.Header, r.Body = hdr(methodNames[KUnary]), bytesBody(payload)
 		r.Header.Headers = []*goatorepo.KeyValue{{Key: "grpc-timeout", Value: "-5S"}, {Key: "GRPC-TIMEOUT", Value: "xyz"}}
